@@ -445,6 +445,8 @@ def run(ctx):
 
     ctx.attempt(_e2e.beam_rule, ctx, 'R16.E3')
     ctx.attempt(_e2e.results_rule, ctx, 'R16.E1')
+    # Wdef of a restored damage iteration is computed with the stiffness of THAT damage
+    ctx.attempt(_e2e.phasefield_rule, ctx, 'R16.E4')
     # nodal and per-element forms of the results on a uniform state, single-group and mixed (TRI3 + QUAD4, TRI6 + QUAD8) meshes
     ctx.attempt(_e2e.patch_test_rule, ctx, 'R16.E2', ['TRI3', 'QUAD4', 'TRI3+QUAD4', 'TRI6+QUAD8'])
     from ..shared import zero_argument_division_rule as _zero_argument_division_rule
